@@ -319,6 +319,8 @@ pub fn contexts(core: &str, d: &Delims, n: &Names, level: u8) -> Vec<String> {
     v.push(format!("\n{core}"));
     v.push(format!("{core}é"));
     v.push(format!("あ🧹 = 1;\n{core}"));
+    // enough text behind the document that a stale or doubled range lands in text, not past the end
+    v.push(format!("{core}\n{}", (0..12).map(|i| format!("tail{i}();\n")).collect::<String>()));
     if level >= 2 {
         v.push(format!("{core}{core}"));
         let filler: String = (0..200).map(|i| format!("f{i}();\n")).collect();
@@ -355,6 +357,7 @@ fn bounds(p: P, tier: Tier) -> Bounds {
         blank: true,
         rich: p == P::C14,
         short_unwrap: true,
+        shared_lines: tier == Tier::Thorough,
     };
     match tier {
         Tier::Quick => Bounds {
@@ -381,6 +384,7 @@ fn bounds(p: P, tier: Tier) -> Bounds {
                     Kind::Future,
                     Kind::Targeted,
                     Kind::SkipExpired,
+                    Kind::SkipFuture,
                     Kind::Unregistered,
                 ],
                 inline_kinds: vec![Kind::Expired, Kind::Future],
@@ -537,7 +541,7 @@ pub fn run(r: &Report, p: P) {
             || r.local(),
             |l: &mut Local, idx, doc| {
                 l.transition(if idx.is_empty() { 0 } else { 1 });
-                let lvl = if idx.len() <= b.line_ctx_n { 2 } else { 0 };
+                let lvl = if idx.len() <= b.line_ctx_n { 2 } else { 1 };
                 let mut variants = vec![doc.to_string()];
                 if doc.ends_with('\n') {
                     variants.push(doc[..doc.len() - 1].to_string());
